@@ -830,12 +830,19 @@ func TestC13HTTP(t *testing.T) {
 	}
 	n := 0
 	for _, level := range levels {
-		for _, bin := range []int{64, 4096, 20000} {
+		for _, bin0 := range []int{64, 4096, 20000, -64, -4096, -20000} {
 			n++
 			if !vh.Mine(n) {
 				continue
 			}
+			bin, slow := bin0, false
+			if bin0 < 0 {
+				// the same again with source files that are slow to read: the two sender threads
+				// are then in the middle of encoding their payloads at the same time
+				bin, slow = -bin0, true
+			}
 			conf := confTwoThreads()
+			conf.SlowRead = slow
 			conf.Compression = level
 			conf.BinSize = bin
 			conf.Horizon = 30 * time.Minute
@@ -883,13 +890,13 @@ func TestC13HTTP(t *testing.T) {
 			rep.Transitions += int64(len(res.Events))
 			rep.Nontrivial++
 			rep.Outcome(res.Outcome)
-			rep.Sample(map[string]int{"compression": level, "payload_size": bin}, 4)
+			rep.Sample(map[string]int{"compression": level, "payload_size": bin0}, 4)
 			if res.Viol != "" {
-				rep.Violate(res.Class, res.Viol, map[string]int{"compression": level, "payload_size": bin})
+				rep.Violate(res.Class, res.Viol, map[string]int{"compression": level, "payload_size": bin0})
 			}
 		}
 	}
-	rep.Bound = fmt.Sprintf("compression levels %v x payload sizes {64, 4096, 20000} bytes; six files (1, 2, 7, 300, 8192, 8193 bytes; names with unicode, spaces and nested directories) sent by the real sender through real HTTP requests to the real receiver; every part of every request must reach the gate keeper under its name and range, and every file must arrive byte-identical", levels)
+	rep.Bound = fmt.Sprintf("compression levels %v x payload sizes {64, 4096, 20000} bytes x source files read at once / slowly in pieces of 512 bytes (the two sender threads then encode their payloads at the same time); six files (1, 2, 7, 300, 8192, 8193 bytes; names with unicode, spaces and nested directories) sent by the real sender through real HTTP requests to the real receiver; every part of every request must reach the gate keeper under its name and range, and every file must arrive byte-identical", levels)
 }
 
 // ---------------------------------------------------------------- C04 / C01 end to end
